@@ -261,6 +261,17 @@ def run(chk):
     chk.instance(r_ev, "marker", sample=dict(events=evs, guard=show(guard[0]["cond"]) if guard else None))
     if evs != ["ACTIONX_WELL_EVENT"] or len(guard) != 1 or show(guard[0]["cond"]) != "(!sim_update.affected_wells.empty())":
         chk.violation(r_ev, "marker", "applyAction adds events %s under guard %s; state n may differ from the inlined schedule only by the ACTIONX_WELL_EVENT marker of the affected wells" % (evs, show(guard[0]["cond"]) if guard else None), aa["file"], aa["l"])
+    # the marker goes on state n: it is written through snapshots.back() while the last state is still the action's step, i.e.
+    # before the later report steps are re-built - or it addresses snapshots[reportStep] explicitly
+    step_param = aa["params"][0]["n"]
+    rebuild = [i for i, s_ in enumerate(body) if any(x["k"] == "MCall" and x.get("m") == "iterateScheduleSection" for x in walk(s_))]
+    if guard and rebuild:
+        gi = [i for i, s_ in enumerate(body) if s_ is guard[0]]
+        via_back = any(x["k"] == "MCall" and x.get("m") == "back" for a_ in adds for x in walk(a_))
+        explicit = any(__import__("rules.C05", fromlist=["subscript"]).subscript(x) and show(strip(__import__("rules.C05", fromlist=["subscript"]).subscript(x)[1])) == step_param for a_ in adds for x in walk(a_) if x["k"] in ("Idx", "OpCall"))
+        chk.instance(r_ev, "marker:state", sample=dict(marker_statement=gi, rebuild_statement=rebuild, through_back=via_back, indexed_by_step=explicit))
+        if not explicit and (not via_back or not gi or gi[0] > min(rebuild)):
+            chk.violation(r_ev, "marker:state", "applyAction adds the ACTIONX_WELL_EVENT marker through snapshots.back() AFTER the later report steps have been re-built: back() is then the last report step, so state n loses the marker and the last state gets one the inlined schedule does not have", aa["file"], guard[0]["l"])
     direct = []
     for n in walk(aa["body"]):
         if n["k"] == "Mem" and n["n"] == "snapshots" and n.get("cls") == "Opm::Schedule":
